@@ -181,6 +181,9 @@ class Loop:
             if node is not None and sorted(node.children) != sorted(children):
                 world.probes['stale_snapshot_processed'] += 1
             events = world.lt_process_begin(path, children)
+            held_before = {name: sorted(srv.apps)
+                           for name, srv in master.servers.items()
+                           if srv.apps} if world.prop == 'C08' else {}
             done = False
             try:
                 raw = getattr(mastermod.Master.process, '__wrapped__', None)
@@ -191,6 +194,7 @@ class Loop:
                 done = True
             finally:
                 world.lt_process_end(path, children, events, done)
+            world.check_no_server_dropped(master, held_before)
             world.probes['events_processed'] += 1
             loop.phase = 'loop'
 
